@@ -63,15 +63,15 @@ func (k Keeper) GetZeroFeeAsCoin(ctx sdk.Context) sdk.Coin {
 }
 
 func (k Keeper) GetRegistrationFeeAsCoin(ctx sdk.Context) sdk.Coin {
-	return sdk.NewInt64Coin(k.GetParamDenom(ctx), int64(k.GetParamRegistrationFee(ctx)))
+	return sdk.NewCoin(k.GetParamDenom(ctx), sdk.NewIntFromUint64(k.GetParamRegistrationFee(ctx)))
 }
 
 func (k Keeper) GetRecordFeeAsCoin(ctx sdk.Context) sdk.Coin {
-	return sdk.NewInt64Coin(k.GetParamDenom(ctx), int64(k.GetParamRecordFee(ctx)))
+	return sdk.NewCoin(k.GetParamDenom(ctx), sdk.NewIntFromUint64(k.GetParamRecordFee(ctx)))
 }
 
 func (k Keeper) GetPurchaseStorageFeeAsCoin(ctx sdk.Context) sdk.Coin {
-	return sdk.NewInt64Coin(k.GetParamDenom(ctx), int64(k.GetParamPurchaseStorageFee(ctx)))
+	return sdk.NewCoin(k.GetParamDenom(ctx), sdk.NewIntFromUint64(k.GetParamPurchaseStorageFee(ctx)))
 }
 
 func (k Keeper) GetZeroFeeAsCoins(ctx sdk.Context) sdk.Coins {
